@@ -251,6 +251,9 @@ def gen_cip_case(rnd, cid, dom):
 
 def gen_drop_case(rnd, cid, dom):
     n = rnd.choice([1, 2, 2, 3])
+    if rnd.random() < 0.03:
+        # zero-dimensional universe: by the library's convention it contains an integer point
+        return "drop %s %s 0 cons 0%s vars -1 cx %d cand" % (cid, dom, " cgs 0" if dom == "GRID" else "", rnd.choice([0, 1, 2]))
     line = "drop %s %s %d " % (cid, dom, n)
     if dom == "GRID":
         cgs = []
